@@ -76,8 +76,8 @@ def check_unit_header(cu, U, is_tu):
 def check_die(d, e, U, sh):
     T = tabs()
     if e.null:
-        if not d.is_null() or d.size != 1 or d.abbrev_code != 0 or d.attributes:
-            raise Bad('null entry', off=e.off)
+        if not d.is_null() or d.size != e.size or d.abbrev_code != 0 or d.attributes:
+            raise Bad('null entry%s' % (' (non-minimal LEB128 zero)' if e.size > 1 else ''), off=e.off, got=d.size, want=e.size)
         return
     if d.size != e.size:
         forms = sorted({a.final for a in e.attrs})
